@@ -41,7 +41,7 @@ def run(tier):
     envs = MI.env_grid(tier, rng)
     eenc = [MI.enc_env(e) for e in envs]
     ienv = [MI.impl_env(e) for e in envs]
-    n = 1500 if tier == "quick" else 30000
+    n = 1500 if tier == "quick" else 3000      # thorough: every marker on the full grid of 392 environments (about 1.2 M evaluations)
     texts = []
     for _ in range(n):
         s, k, feats = MI.gen_marker(rng, depth=rng.choice([1, 2, 3, 3] + ([4] if tier != "quick" else [])))
